@@ -5,7 +5,7 @@
    [H] is any hash function with 32-byte output; [reach H sc S ss]: the session
    state [ss] is reached by trie.New on store [S] (scheme [sc]) followed by ANY
    history of Update / Delete / Get. *)
-From GV Require Import Lib.Tactics Trie.Hex Trie.Node Trie.Ops Trie.Hash Trie.OpsProofs Trie.Commit Trie.CommitProofs Trie.CommitTracer Trie.CommitReads Trie.CommitSim.
+From GV Require Import Lib.Tactics Trie.Hex Trie.Node Trie.Ops Trie.Hash Trie.OpsProofs Trie.Commit Trie.CommitProofs Trie.CommitTracer Trie.CommitReads Trie.CommitSim Trie.CommitSimDel Trie.CommitHist Trie.CommitExact.
 Local Open Scope N_scope.
 
 (* the returned root is Trie.Hash() of the in-memory trie; for a short/full root
@@ -75,20 +75,9 @@ Theorem C07_deleted_nodes_spec : forall pres ev p,
 Proof. exact deleted_nodes_spec. Qed.
 Print Assumptions C07_deleted_nodes_spec.
 
-(* TARGET (DESIGN.md) commit_exact_path :
-     apply nodeset (nodes_of told) = nodes_of tnew      (path scheme; no stale node, none missing)
-   PROVED PART, for every session history: the store after applying the set holds
-   the written blob (carrying its hash) at every written path, nothing at every
-   deleted path, each previous value is what the store held there, and every
-   other path is untouched.
-   MISSING (shown by the correspondence check and the Go oracle only: the
-   keyspace after applying equals a from-scratch build, and the tracer sets are
-   compared on every case): that the written/deleted paths are EXACTLY the
-   positions whose hashed node changed — i.e. that trie.go's insert/delete emit
-   events [consistent] with node presence (hypothesis of C07_tracer_spec), that
-   clean (skipped) nodes are unchanged, and that paths below unresolved hash
-   nodes are untouched. *)
-Theorem C07_commit_exact_path_partial : forall H S ss r ns,
+(* applying a committed set is a pointwise override of the path store, and the
+   previous values are what the store held (every session history) *)
+Theorem C07_apply_pointwise : forall H S ss r ns,
   reach H PathScheme S ss -> commit H ss = Some (r, Some ns) ->
   forall p,
     match am_get p ns with
@@ -100,30 +89,94 @@ Theorem C07_commit_exact_path_partial : forall H S ss r ns,
     | None => am_get p (apply_nodeset PathScheme ns S) = am_get p S
     end.
 Proof. exact commit_applied_path. Qed.
+Print Assumptions C07_apply_pointwise.
+
+(* commit_reads_back (path scheme) — FULL.
+   [reachable H S ss]: the database/session state is reached from the EMPTY
+   database by any number of generations (trie.New, any Update / Delete / Get
+   with byte keys and keys/values shorter than 2^32 bytes, Commit, apply, reopen).
+   Committing any reachable session and reopening at the returned root from the
+   updated store succeeds, and every byte key reads there exactly the value it
+   read in the in-memory trie before the commit.  Uses c06 (insert_spec,
+   delete_spec, canonical form), c08 (decode_enc) and collision freedom only
+   against the empty-root preimage. *)
+Theorem C07_commit_reads_back : forall H,
+  (forall x, length (H x) = 32%nat) ->
+  (forall e, H e = H empty_root_preimage -> e = empty_root_preimage) ->
+  forall S ss r ons key,
+    reachable H S ss -> commit H ss = Some (r, ons) -> forallb byteb key = true ->
+    exists ss2,
+      open_trie H PathScheme (applied S ons) r = TOk ss2 /\
+      exists v t1 d1 ev1 t2 d2 ev2,
+        trie_get (resolve_of H PathScheme S) (s_root ss) key = TOk (v, t1, d1, ev1) /\
+        trie_get (resolve_of H PathScheme (applied S ons)) (s_root ss2) key = TOk (v, t2, d2, ev2).
+Proof. exact commit_reads_back. Qed.
+Print Assumptions C07_commit_reads_back.
+
+(* the invariant behind it: every reachable session represents a canonical,
+   size-bounded ground trie F over its store *)
+Theorem C07_reachable_sinv : forall H,
+  (forall x, length (H x) = 32%nat) ->
+  (forall e, H e = H empty_root_preimage -> e = empty_root_preimage) ->
+  forall S ss, reachable H S ss -> exists F, sinv H S ss F /\ gsizes F.
+Proof. exact reachable_sinv. Qed.
+Print Assumptions C07_reachable_sinv.
+
+(* Update and Delete keep the invariant, for the ground trie updated at that key *)
+Theorem C07_update_preserves_sinv : forall H,
+  (forall x, length (H x) = 32%nat) ->
+  forall S ss F key v ss',
+    sinv H S ss F -> gsizes F -> op_ok key v ->
+    sess_update H PathScheme S ss key v = TOk ss' ->
+    exists F', sinv H S ss' F' /\ gsizes F' /\
+               lk F' (keybytes_to_hex key) = Canon.vopt v /\
+               (forall hk, hk <> keybytes_to_hex key -> lk F' hk = lk F hk).
+Proof. exact sess_update_sinv. Qed.
+Print Assumptions C07_update_preserves_sinv.
+
+(* "none missing" half of commit_exact_path, FULL: after the commit of any
+   reachable session the updated store holds every hashed node of the ground
+   trie at its path, under the returned root *)
+Theorem C07_commit_none_missing : forall H,
+  (forall x, length (H x) = 32%nat) ->
+  (forall e, H e = H empty_root_preimage -> e = empty_root_preimage) ->
+  forall S ss r ons,
+    reachable H S ss -> commit H ss = Some (r, ons) ->
+    exists F, store_ok H (applied S ons) r F.
+Proof. exact commit_none_missing. Qed.
+Print Assumptions C07_commit_none_missing.
+
+(* TARGET (DESIGN.md) commit_exact_path :
+     apply nodeset (nodes_of told) = nodes_of tnew      (path scheme)
+   PROVED for every reachable session, with F the ground trie it represents
+   ([gsub H true [] F q Gq]: Gq is the hashed node of F at path q):
+     - none missing: every hashed node of F is in the updated store at its path,
+       and the store resolves it (store_ok);
+     - none wrong: every node the commit wrote is the encoding of the hashed node of
+       F at that path;
+     - every other entry of the updated store is an entry of the OLD store that the
+       node set does not mention.
+   MISSING for equality ("no stale node"): that such an unmentioned old entry is
+   still a hashed node of F, i.e. deletion completeness — every old node that was
+   loaded and is no longer a node of F is in deletedNodes or is deleted as an
+   embedded node.  That needs the event-consistency of trie.go's insert/delete
+   (hypothesis of C07_tracer_spec) and "every loaded old node has a pre-value";
+   it is shown by the correspondence check and the Go oracle only (disk keyspace =
+   from-scratch build on every case). *)
+Theorem C07_commit_exact_path_partial : forall H,
+  (forall x, length (H x) = 32%nat) ->
+  (forall e, H e = H empty_root_preimage -> e = empty_root_preimage) ->
+  forall S ss r ns,
+    reachable H S ss -> commit H ss = Some (r, Some ns) ->
+    exists F, store_ok H (apply_nodeset PathScheme ns S) r F /\
+      forall q b, am_get q (apply_nodeset PathScheme ns S) = Some b ->
+        (exists Gq, gsub H true [] F q Gq /\ node_enc H Gq = Some b) \/
+        (am_get q ns = None /\ am_get q S = Some b).
+Proof. exact commit_exact_path_partial. Qed.
 Print Assumptions C07_commit_exact_path_partial.
 
-(* TARGET commit_reads_back :
-     forall k, get (open root' (apply nodeset store)) k = get tnew k      (path scheme)
-   PROVED for every session state satisfying the session invariant
-   [sinv H S ss F]: the in-memory trie REPRESENTS a canonical ground trie F over
-   store S (hash nodes resolve to the decoded encoding of exactly their subtree,
-   clean nodes are still stored and not below any path of the deletion set).
-   Then: reopening at the returned root from the updated store succeeds, and every
-   byte key reads there the SAME value as in the in-memory trie before the commit,
-   namely the pure lookup of F.  Uses c08's decode_enc and collision freedom only
-   against the empty-root preimage.
-   The invariant is established by trie.New on a store holding F (C07_open_sinv),
-   re-established for the NEXT generation by the commit itself
-   (C07_commit_store_ok; base case C07_store_ok_empty), preserved by Get
-   (C07_get_preserves_sinv), and the representation is preserved by insert
-   together with the run of insert on the ground trie (C07_insert_preserves_rep).
-   MISSING for "every history": the analogue of C07_insert_preserves_rep for
-   delete (branch collapse with resolution of the remaining child, growth of the
-   deletion set), and that Update keeps the ground trie canonical with sizes
-   < 2^32 (follows from c06's insert_spec/delete_spec on the ground run plus a
-   size argument); the hash scheme variant.  These are covered by the
-   correspondence check and the Go oracle only. *)
-Theorem C07_commit_reads_back_partial : forall H,
+(* the same from the session invariant alone *)
+Theorem C07_commit_reads_back_sinv : forall H,
   (forall x, length (H x) = 32%nat) ->
   (forall e, H e = H empty_root_preimage -> e = empty_root_preimage) ->
   forall S ss F r ons key,
@@ -135,7 +188,7 @@ Theorem C07_commit_reads_back_partial : forall H,
         trie_get (resolve_of H PathScheme (applied S ons)) (s_root ss2) key = TOk (v, t2, d2, ev2) /\
         v = lk F (keybytes_to_hex key).
 Proof. exact commit_reads_back_sinv. Qed.
-Print Assumptions C07_commit_reads_back_partial.
+Print Assumptions C07_commit_reads_back_sinv.
 
 (* after the commit the updated store holds the ground trie under the returned
    root: every hashed node of F is stored at its path with the encoding that
@@ -207,6 +260,16 @@ Print Assumptions C07_update_value_preserves_rep.
 
 (* the hypotheses are met: a two-generation history over a path-scheme store whose
    second commit returns deletions with previous values, and whose events are
-   [consistent] with the stored node positions *)
-Example C07_nonvacuous : c07_example_ok && ex_tracer_ok = true.
-Proof. vm_compute. reflexivity. Qed.
+   [consistent] with the stored node positions; a hash function with 32-byte output
+   that is collision free against the empty-root preimage; and a reachable session
+   holding three keys whose commit returns a node set *)
+Example C07_nonvacuous :
+  c07_example_ok && ex_tracer_ok = true /\
+  (forall x, length (toyH2 x) = 32%nat) /\
+  (forall e, toyH2 e = toyH2 empty_root_preimage -> e = empty_root_preimage) /\
+  reachable toyH2 [] ex_e3 /\
+  exists r ns, commit toyH2 ex_e3 = Some (r, Some ns) /\ (3 <= length ns)%nat.
+Proof.
+  split; [vm_compute; reflexivity|]. split; [exact toyH2_len|]. split; [exact toyH2_inj_empty|].
+  exact ex_reachable.
+Qed.
